@@ -11,13 +11,13 @@ git -C /repo worktree add --detach -q $W $BASE || exit 2
 cd $W
 demos=$(ls $OUT/*_test.go)
 cp $demos $DEST/
-echo "--- demo WITHOUT change"; go test -vet=off -count=1 -timeout 300s -run "$RUN" $PKG > /tmp/confirm/$NAME.without.log 2>&1; R_WITHOUT=$?; tail -3 /tmp/confirm/$NAME.without.log
+echo "--- demo WITHOUT change"; go test ${EXTRA:-} -vet=off -count=1 -timeout 300s -run "$RUN" $PKG > /tmp/confirm/$NAME.without.log 2>&1; R_WITHOUT=$?; tail -3 /tmp/confirm/$NAME.without.log
 for f in $demos; do rm $DEST/$(basename $f); done
 git apply $OUT/patch.diff; R_APPLY=$?
 echo "--- build+suite WITH change"; go build ./... > /tmp/confirm/$NAME.suite.log 2>&1; R_BUILD=$?
 go test -vet=off -count=1 ./... >> /tmp/confirm/$NAME.suite.log 2>&1; R_SUITE=$?; grep -v "no test files" /tmp/confirm/$NAME.suite.log | tail -5
 cp $demos $DEST/
-echo "--- demo WITH change"; go test -vet=off -count=1 -timeout 300s -run "$RUN" $PKG > /tmp/confirm/$NAME.with.log 2>&1; R_WITH=$?; tail -5 /tmp/confirm/$NAME.with.log
+echo "--- demo WITH change"; go test ${EXTRA:-} -vet=off -count=1 -timeout 300s -run "$RUN" $PKG > /tmp/confirm/$NAME.with.log 2>&1; R_WITH=$?; tail -5 /tmp/confirm/$NAME.with.log
 cd /; git -C /repo worktree remove --force $W
 echo "apply=$R_APPLY build=$R_BUILD suite=$R_SUITE demo_without=$R_WITHOUT demo_with=$R_WITH"
 if [ $R_APPLY = 0 ] && [ $R_BUILD = 0 ] && [ $R_SUITE = 0 ] && [ $R_WITHOUT = 0 ] && [ $R_WITH != 0 ]; then
